@@ -40,6 +40,48 @@ func TestVerifC15Fix(t *testing.T) {
 			fmt.Sprintf("#%d %d %d %d", idx, int64(cc.LeaseTimeout), int64(cc.LeaseRenewInterval), ttl))
 		idx++
 		s.Count("src_" + src)
+		// one counter per option value class (dimension audit): every clamp boundary of fix() by force (marks)
+		secD := time.Second
+		lc := "kept"
+		switch {
+		case lease == 0:
+			lc = "unset"
+		case lease < 0:
+			lc = "negative"
+		case lease < secD:
+			lc = "below_1s"
+		case lease < 3*secD:
+			lc = "below_3s"
+		case lease == 3*secD:
+			lc = "3s"
+		case lease == 600*secD:
+			lc = "600s"
+		case lease > 600*secD && lease <= 601*secD:
+			lc = "601s"
+		case lease > 601*secD:
+			lc = "above_601s"
+		case lease%secD != 0:
+			lc = "fractional_seconds"
+		}
+		s.Count("cfg_leaseTimeout_" + lc)
+		rc := "kept"
+		switch {
+		case renew == 0:
+			rc = "unset"
+		case renew < 0:
+			rc = "negative"
+		case renew < secD:
+			rc = "below_1s"
+		case renew == secD:
+			rc = "1s"
+		case renew == cc.LeaseTimeout/3:
+			rc = "exactly_third"
+		case renew > cc.LeaseTimeout/3:
+			rc = "above_third"
+		case renew%secD != 0:
+			rc = "fractional_seconds"
+		}
+		s.Count("cfg_leaseRenewInterval_" + rc)
 		switch {
 		case lease == 0:
 			s.Count("lease_default")
@@ -82,7 +124,7 @@ func TestVerifC15Fix(t *testing.T) {
 	sec := int64(time.Second)
 	marks := []int64{math.MinInt64, math.MinInt64 + 1, -600 * sec, -sec, -1, 0, 1, 999999999, sec, sec + 1,
 		2*sec - 1, 3*sec - 1, 3 * sec, 3*sec + 1, 3*sec + 2, 3*sec + 3, 4 * sec, 10 * sec, 10*sec/3 - 1, 10 * sec / 3, 10*sec/3 + 1,
-		199 * sec, 200*sec - 1, 200 * sec, 200*sec + 1, 599 * sec, 600*sec - 1, 600 * sec, 600*sec + 1, 1800 * sec,
+		199 * sec, 200*sec - 1, 200 * sec, 200*sec + 1, 599 * sec, 600*sec - 1, 600 * sec, 600*sec + 1, 601 * sec, 3*sec + sec/2, sec + sec/2, 1800 * sec,
 		math.MaxInt64 - 1, math.MaxInt64}
 	for _, l := range marks {
 		for _, rv := range marks {
